@@ -302,7 +302,13 @@ contract('gnpy.core.elements.Edfa.interpol_params', props=['C04'],
                   ('never_above_p_max', 'self.pin_db + self.effective_gain <= p.p_max'),
                   ('nf_model', 'forall(lambda i: self.nf[i] == self.interpol_nf_ripple[i] + '
                                'NFVG(p.nf_model, p.gain_min, p.gain_flatmax, self.effective_gain), n)'),
-                  ('nch', 'self.nch == n')],
+                  ('nch', 'self.nch == n'),
+                  # the three tables of the model (tilt shape, gain ripple, NF ripple) are laid over the amplifier's own band
+                  # [f_min, f_max] and read at the channel frequencies
+                  ('tables_over_the_amplifier_band',
+                   'forall(lambda i: self.interpol_nf_ripple[i] == interp(spectral_info._frequency, arrange_frequencies(len(p.nf_ripple), p.f_min, p.f_max), p.nf_ripple)[i] '
+                   'and self.interpol_gain_ripple[i] == interp(spectral_info._frequency, arrange_frequencies(len(p.gain_ripple), p.f_min, p.f_max), p.gain_ripple)[i] '
+                   'and self.interpol_dgt[i] == interp(spectral_info._frequency, arrange_frequencies(len(p.dgt), p.f_min, p.f_max), p.dgt)[i], n)')],
          modifies=_IP_MOD)
 
 contract('gnpy.core.elements.Edfa.propagate', props=['C04', 'C01', 'C02', 'C05'],
